@@ -377,6 +377,10 @@ class Closure:
 _UNSET = object()
 
 
+import re as _re_mod
+_re_memo = _re_mod.compile(r"\b(lru_cache|cache)\b")
+
+
 class ModuleRef:
     def __init__(self, name):
         self.name = name
@@ -442,13 +446,29 @@ class Interp:
             raise Undecided(f"unexpected kwargs {list(kwargs)} for {fi.qual}")
         if _is_generator(fi.node):
             return self._make_generator(fi.node.body, env, fi.qual, fi.decorators())
+        # functools.lru_cache / functools.cache: the body runs once per distinct (hashable) argument tuple, every later
+        # call with equal arguments gets the first result back - whatever the world looks like by then
+        memo_key = None
+        if any(_re_memo.search(d) for d in fi.decorators()):
+            try:
+                memo_key = (id(fi.node), tuple(env[p] for p in params), tuple(sorted((p.arg, env.get(p.arg)) for p in a.kwonlyargs)))
+                hash(memo_key)
+            except (TypeError, KeyError):
+                memo_key = None
+            memo = self.__dict__.setdefault("_memo", {})
+            if memo_key is not None and memo_key in memo:
+                return memo[memo_key]
         self.depth += 1
         try:
             self.exec_block(fi.node.body, env)
         except _Return as r:
+            if memo_key is not None:
+                self._memo[memo_key] = r.value
             return r.value
         finally:
             self.depth -= 1
+        if memo_key is not None:
+            self._memo[memo_key] = None
         return None
 
     def _make_generator(self, body, env, name, decorators=()):
@@ -625,7 +645,37 @@ class Interp:
                 for nm in st.names:
                     dict.pop(env, nm, None)
             return
-        if isinstance(st, (ast.Import, ast.ImportFrom)):
+        if isinstance(st, ast.Import):
+            # a local import binds the module name in the function's scope
+            for al in st.names:
+                top = al.name.split(".")[0]
+                if al.asname:
+                    env[al.asname] = ModuleRef(al.name)
+                else:
+                    env[top] = ModuleRef(top)
+            return
+        if isinstance(st, ast.ImportFrom):
+            mod_ = env.get("__mod__")
+            for al in st.names:
+                local = al.asname or al.name
+                if st.level == 0 and st.module and not st.module.startswith("geckolib"):
+                    env[local] = Builtin(f"{st.module}.{al.name}")
+                elif mod_ is not None:
+                    # resolve like a module-level import of the enclosing module
+                    saved = mod_.imports.get(local, _UNSET)
+                    mod_.imports[local] = (st.level, st.module or "", al.name)
+                    try:
+                        env.pop(local, None)
+                        try:
+                            v = self.e_Name(ast.Name(id=local, ctx=ast.Load()), {"__mod__": mod_, "__class__": None})
+                        except Undecided:
+                            v = Opaque(local)
+                        env[local] = v
+                    finally:
+                        if saved is _UNSET:
+                            mod_.imports.pop(local, None)
+                        else:
+                            mod_.imports[local] = saved
             return
         if isinstance(st, (ast.FunctionDef, ast.AsyncFunctionDef)):
             env[st.name] = Closure(self, st, env)   # a local function: sees the enclosing scope live, as in Python
@@ -763,6 +813,8 @@ class Interp:
             try:
                 vals = list(val)
             except TypeError:
+                if val is None or isinstance(val, (bool, int, float)):
+                    raise PyRaise(f"TypeError: cannot unpack non-iterable {type(val).__name__} object", target)
                 raise Undecided("unpack of non-iterable")
             if len(vals) != len(target.elts):
                 raise PyRaise("ValueError: unpack arity", target)
@@ -1000,6 +1052,31 @@ class Interp:
                 val = self.eval(ex_, {"__class__": cls, "__mod__": cls.mod, "__classbody__": cls})
             except Undecided:
                 return None
+        # a repeated value makes the later name an ALIAS of the earlier member (Python's Enum): same object, same name
+        if not self.__dict__.get("_enum_alias_busy"):
+            self._enum_alias_busy = True
+            try:
+                for k_ in cls.consts:
+                    if k_ == attr:
+                        break
+                    if not self._is_enum_member_name(cls, k_):
+                        continue
+                    first = cache.get((cls.name, k_))
+                    if first is None:
+                        e2 = cls.consts[k_]
+                        if not isinstance(e2, ast.Constant):
+                            continue
+                        if e2.value == val and type(e2.value) is type(val):
+                            self._enum_alias_busy = False
+                            first = self.enum_member(cls, k_)
+                            self._enum_alias_busy = True
+                        else:
+                            continue
+                    if first is not None and first.value == val and type(first.value) is type(val):
+                        cache[(cls.name, attr)] = first
+                        return first
+            finally:
+                self._enum_alias_busy = False
         if any(b == "str" for b in cls.bases) and isinstance(val, str):
             m_ = StrEnumMember(cls, attr, val)
         else:
